@@ -20,7 +20,31 @@ from vlib import harness, xhair
 PROP = "C20"
 
 
+def run_library(spec):
+    """Concrete side check in a fresh interpreter (registering types is global): see units/c20_library.py."""
+    import os
+    import subprocess
+
+    from vlib.harness import ROOT, outcome
+
+    py = os.path.join(ROOT, ".venv", "bin", "python")
+    env = dict(os.environ, PYTHONPATH=os.environ.get("PYTHONPATH") or ROOT)
+    try:
+        p = subprocess.run([py, os.path.join(ROOT, "units", "c20_library.py")], capture_output=True, text=True, env=env, timeout=300)
+    except subprocess.TimeoutExpired:
+        return outcome(spec["name"], "inconclusive", detail="timed out")
+    for line in p.stdout.splitlines():
+        if line.startswith("RESULT"):
+            ok = line.split()[1] == "True"
+            return outcome(spec["name"], "proved" if ok else "violated", stage="concrete",
+                           detail="" if ok else line[len("RESULT False "):], witness=None if ok else {"problems": line[13:]},
+                           sample="apply_geometry_lowering on geometric quantity types registered after its first use")
+    return outcome(spec["name"], "inconclusive", detail="side check did not run: " + (p.stderr.strip().splitlines() or ["?"])[-1][:200])
+
+
 def run(spec):
+    if spec.get("kind") == "library":
+        return run_library(spec)
     return xhair.check_condition(spec["name"], "units.c20_harness", spec["func"], spec["concrete"],
                                  spec["post"], per_condition_timeout=spec.get("pct", 150), twin=spec.get("twin", False),
                                  sample=spec.get("sample"))
@@ -36,6 +60,7 @@ def specs(tier):
                     S.append(dict(name=f"k={k}/j={j}/chain={c}/order={o}", func=fn, concrete=fn, post="_ == 0",
                                   sample=f"registry state: {k} types registered before first use, {j} after, chain={c}, "
                                          f"order={o}; dispatched type index t in [-1,3] symbolic", pct=200, task_timeout=500))
+    S.append(dict(name="library/geometry-lowering-late-types", kind="library", task_timeout=400))
     S.append(dict(name="twin#twin", func="check_dispatch_twin", concrete="check_dispatch_twin", post="_ == 1", twin=True,
                   pct=90, task_timeout=300))
     return S
